@@ -53,6 +53,10 @@ CHECKS = {
          "generated-input search + exhaustive enumeration of partial-length sequences: bodies (harvested from real artifacts and generated) wrapped in every framing by an independent framer; metamorphic oracle (parse equals parse of the canonical framing, following sentinel packet found, message reader returns the literal data), illegal framings must not yield an Ok packet, writer output de-framed by the independent de-framer",
          "exploration: ~45k (thorough ~800k) framings over all packet types incl. unknown tags x new 1/2/5-octet, legacy 0/1/2, indeterminate, partial sequences; lengths on 191/192, 8383/8384, 65535/65536; 5 classes of illegal framing; exhaustive: every partial exponent sequence of <=3 chunks for the listed literal body lengths; writer side: every parsed packet is re-serialized and must de-frame to one legally framed packet with the same body",
          "reference framer/de-framer written from RFC 9580 4.2; the malformed-artifact-compat feature is not enabled; non-minimal length encodings are treated as legal"),
+ "C18": ("DESIGN.md §4 C18",
+         "generated-input search over (recipient set, presented secrets, ordering, abort flag) with a round-trip oracle for intended secrets, an error-and-zero-bytes oracle for foreign material, and spliced messages (own framer) whose ESKs wrap different session keys for the cross-check clause",
+         "exploration: ~11k (thorough ~220k) cases; 1..4 recipients over all encryption algorithms, PKESK v3/v6, addressed/anonymous, 0..3 passwords x S2K kinds; intended key locked/unlocked with wrong key passwords first, at every position among 0..3 unrelated keys (same-algorithm decoys preferred for wildcard recipients); passwords alone / among unrelated ones (SKESK v6); negatives: non-recipient keys, wrong passwords, bit-flipped session key, session key of the wrong kind or cipher; conflicts: PKESK vs SKESK wrapping different keys with abort_early=false, RingResult marks",
+         "SKESK v4 wrong-password false accepts are only required to end in an error; the multi-password SEIPDv1 defect is a recorded finding"),
 }
 NOT_BUILT_REASON = "check not built yet in this round (work in progress; property-based testing applies, see DESIGN.md §4)"
 ALL = ["C%02d" % i for i in range(1, 20)]
